@@ -1,6 +1,6 @@
 (* C02 — property theorems only (each closed by `exact <lemma>` and followed by Print Assumptions). *)
-From Coq Require Import List NArith Bool Arith.
-From MW Require Import Common.Str C01.Model C02.Model C02.Proofs.
+From Coq Require Import List NArith Bool Arith Permutation Sorted.
+From MW Require Import Common.Str C01.Model C02.Model C02.Proofs C02.ProofsQuotes.
 Import ListNotations.
 
 (* Sections (core.py:90-146,178-193): for every sequence of headings (any levels, any captions) and blocks, the
@@ -16,19 +16,34 @@ Theorem C02_sections_text_in_order : forall (A : Type) (items : list (item A)),
 Proof. exact nest_flat. Qed.
 Print Assumptions C02_sections_text_in_order.
 
-(* Apostrophe runs, PARTIAL: for every balanced sequence of ''/''' runs of length <= 10 and the two extreme
-   tie-breaking orders of sort_states, compute_path returns exactly the denoted toggles (no literal apostrophes).
-   Full statement (all lengths, every tie-breaking order) is FALSE of the model and of the code, see _refuted. *)
-Theorem C02_quotes_balanced_partial :
-  forallb (fun cs => implb (balanced cs) (path_is_toggle stable_sort cs && path_is_toggle antistable_sort cs)) (seqs23 10) = true.
-Proof. exact quotes_balanced_upto_10. Qed.
-Print Assumptions C02_quotes_balanced_partial.
+(* Apostrophe runs (core.py:243 ParseSingleQuote + styleanalyzer.py:90-127 compute_path with the de-duplication of states by
+   (apocount, bold, italic)): for EVERY tie-breaking order of sort_states (any sorter that permutes its input and orders it by
+   score; the real one breaks ties by id()) and every balanced sequence of runs of two or three apostrophes, of ANY length, on
+   one line (toggling italic / bold per run ends with both off), compute_path returns exactly the denoted toggles: no
+   apostrophe becomes literal text, no style leaks.  (Before fix 93e1f92 this was false from 36 runs on: the cut to 32 states
+   dropped the denoted path.) *)
+Theorem C02_quotes_balanced :
+  forall sorter : list pst -> list pst,
+  (forall l, Permutation (sorter l) l) ->
+  (forall l, StronglySorted (fun a b => score (fst a) <= score (fst b)) (sorter l)) ->
+  forall counts, balanced counts = true -> compute_path sorter counts = Ok (toggle_path false false counts).
+Proof. exact quotes_balanced. Qed.
+Print Assumptions C02_quotes_balanced.
 
-Theorem C02_quotes_balanced_refuted :
-  exists counts, balanced counts = true /\ length counts = 36 /\
-    path_is_toggle stable_sort counts = false /\ path_is_toggle antistable_sort counts = false.
-Proof. exact quotes_balanced_refuted. Qed.
-Print Assumptions C02_quotes_balanced_refuted.
+(* the hypotheses on the sorter are satisfiable: both extreme tie-breaking orders (stable / anti-stable insertion sort) *)
+Theorem C02_quotes_balanced_two_orders :
+  forall counts, balanced counts = true ->
+    compute_path stable_sort counts = Ok (toggle_path false false counts) /\
+    compute_path antistable_sort counts = Ok (toggle_path false false counts).
+Proof. exact quotes_balanced_stable. Qed.
+Print Assumptions C02_quotes_balanced_two_orders.
+
+(* the line the code got wrong before the fix: an italic span holding 17 bold words (36 runs) *)
+Example C02_quotes_long_example :
+  balanced (italic_with_bolds 17) = true /\ length (italic_with_bolds 17) = 36 /\
+  path_is_toggle stable_sort (italic_with_bolds 17) = true /\ path_is_toggle antistable_sort (italic_with_bolds 17) = true.
+Proof. exact quotes_long_example. Qed.
+Print Assumptions C02_quotes_long_example.
 
 Example C02_quotes_example : balanced [2; 3; 3; 2] = true /\ balanced [2; 3] = false /\ path_is_toggle stable_sort [2; 3; 3; 2] = true.
 Proof. exact quotes_example. Qed.
